@@ -21,6 +21,11 @@ def poly_cases(ctx, count):
             o = rng.randint(-2, 2) + rng.randint(0, 15) / 16.0
         else:
             o = f32(rng.uniform(-3, 3))
+        if i % 5 == 4:
+            # far offsets: the integer part of n/2+offset is 0, 1 (stencil leaving the table at the bottom) or size-2, size-1, size
+            # (top; guard's upper edge) - cells whose whole stencil READS inside the grid exist there too
+            jd = rng.choice([0, 1, n - 2, n - 1, n])
+            o = float(jd - n // 2) + rng.randint(1, 15) / 16.0
         data = [0.0] * (nb * n * n)
         for b in range(nb):
             for x in range(n):
